@@ -28,11 +28,10 @@ def Sq.head : Sq → U
   | .one u => u
   | .cons u _ _ => u
 
-/-- no two chains side by side (they would be one chain); a chain after a group needs a blank -/
+/-- no two chains side by side (they would be one chain) -/
 def Sq.valid : Sq → Prop
   | .one u => u.OK
-  | .cons u k s => u.OK ∧ s.valid ∧ (u.isCh = true → s.head.isCh = false) ∧
-      (u.isCh = false → s.head.isCh = true → 1 ≤ k)
+  | .cons u k s => u.OK ∧ s.valid ∧ (u.isCh = true → s.head.isCh = false)
 
 def mulTxt (dg : Str) : Str := if dg.isEmpty then [] else symMul ++ dg
 
@@ -118,7 +117,7 @@ theorem steps_seq (s : Sq) : s.valid → ∃ n, n ≤ (tx 0 s).length ∧ StepsT
       simp only [tx, ux, if_true, List.length_cons, List.length_append]; omega
   | cons u k s ih =>
     intro hv
-    obtain ⟨hu, hvs, h1, h2⟩ := hv
+    obtain ⟨hu, hvs, h1⟩ := hv
     obtain ⟨m, hm, hs⟩ := ih hvs
     cases u with
     | ch it r =>
@@ -186,7 +185,7 @@ theorem P2_seq (s : Sq) : s.valid → P2 (tx 1 s) (tx 2 s) := by
       simpa [tx, ux] using this
   | cons u k s ih =>
     intro hv
-    obtain ⟨hu, hvs, h1, h2⟩ := hv
+    obtain ⟨hu, hvs, h1⟩ := hv
     have hs := ih hvs
     cases u with
     | ch it r =>
@@ -212,6 +211,11 @@ theorem P2_seq (s : Sq) : s.valid → P2 (tx 1 s) (tx 2 s) := by
 
 
 /-! ### pass 3 -/
+
+theorem isEmpty_false_of_ne' {dg : Str} (h : dg ≠ []) : dg.isEmpty = false := by
+  cases dg with
+  | nil => exact absurd rfl h
+  | cons a t => rfl
 
 theorem P3_lparen (r tr : Str) (h : P3 r tr) : P3 ('(' :: r) ('(' :: tr) := by
   intro fuel hf
@@ -330,6 +334,58 @@ theorem P3_blanks (k : Nat) (X tX : Str) (h : P3 X tX)
     exact P3_copy ' ' _ _ (look3_blank _ X (blanks_eq k) hX) ih
 
 
+theorem look3_item_op (it : Item) (hok : it.OK) (x : Str) : look3 (it.expl ++ (symAdd ++ x)) = true := by
+  have hsl := sp_look it hok
+  have h1 : ∀ (c : Char) (y : Str), (c = '+' ∨ c = '*') → look3 (it.sp ++ ' ' :: c :: y) = true := by
+    intro c y hc
+    apply look3_run it.sp _ hsl
+    apply look3_ws_stop c y <;> rcases hc with rfl | rfl <;> decide
+  by_cases hd : it.dg = []
+  · have := h1 '+' (' ' :: x) (Or.inl rfl)
+    simpa [Item.expl, hd, symAdd] using this
+  · have := h1 '*' (' ' :: (it.dg ++ (symAdd ++ x))) (Or.inr rfl)
+    simpa [Item.expl, isEmpty_false_of_ne' hd, symMul, List.append_assoc] using this
+
+/-- a word glued in front of the last item of a chain -/
+theorem P3_item_gen_w (rest trest : Str) (hfin : Fin3 rest trest) (it : Item) (hok : it.OK)
+    (w : Str) (hw : ∀ c ∈ w, c ≠ '(' ∧ isWs c = false) :
+    P3 (w ++ (it.expl ++ rest)) (w ++ (it.expl ++ trest)) := by
+  have hsl := sp_look it hok
+  have hwsp : ∀ c ∈ w ++ it.sp, c ≠ '(' ∧ isWs c = false := by
+    intro c hc
+    rcases List.mem_append.mp hc with h | h
+    · exact hw c h
+    · exact hsl c h
+  by_cases hd : it.dg = []
+  · obtain ⟨s0, l, e, hl⟩ := shape_last it.sp hok.1
+    have := hfin (w ++ s0) l (by
+      intro c hc
+      rcases List.mem_append.mp hc with h | h
+      · exact hw c h
+      · exact sublist_look l e hsl c h) hl
+    simpa [Item.expl, hd, e, List.append_assoc] using this
+  · obtain ⟨d0, l, e, hl⟩ := dig_last it.dg hok.2 hd
+    have hdl := dig_look it.dg hok.2
+    have h1 := hfin d0 l (sublist_look l e hdl) hl
+    have e1 : ∀ z : Str, d0 ++ l :: z = it.dg ++ z := by intro z; rw [e]; simp
+    rw [e1, e1] at h1
+    obtain ⟨h2, h3⟩ := P3_op' '*' (Or.inr rfl) _ _ h1 (head_look it.dg _ hd hdl)
+    have := P3_run (w ++ it.sp) _ _ hwsp h3 h2
+    simpa [Item.expl, isEmpty_false_of_ne' hd, symMul, List.append_assoc] using this
+
+theorem P3_explChain_gen_w (rest trest : Str) (hfin : Fin3 rest trest) (r : Rest) (it : Item)
+    (hok : it.OK) (hr : restOK r) (w : Str) (hw : ∀ c ∈ w, c ≠ '(' ∧ isWs c = false) :
+    P3 (w ++ (explChain it r ++ rest)) (w ++ (explChain it r ++ trest)) := by
+  cases r with
+  | nil => exact P3_item_gen_w rest trest hfin it hok w hw
+  | cons gi t =>
+    obtain ⟨g, it2⟩ := gi
+    have h := P3_explChain_gen rest trest hfin ((g, it2) :: t) it hok hr
+    have hl : look3 (explChain it ((g, it2) :: t) ++ rest) = true := by
+      have := look3_item_op it hok (explChain it2 t ++ rest)
+      simpa [explChain, List.append_assoc] using this
+    exact P3_run w _ _ hw hl h
+
 theorem tx_head_ch (s : Sq) (hv : s.valid) (h : s.head.isCh = true) :
     ∃ a t, tx 2 s = a :: t ∧ isWs a = false ∧ a ≠ '(' := by
   cases s with
@@ -357,23 +413,28 @@ theorem I3_unit_tail (r : Rest) (it : Item) (hok : it.OK) (hr : restOK r) (dg : 
     · decide
     · exact (hdl c h).1
 
-theorem P3_seq (s : Sq) : s.valid → P3 (tx 2 s) (tx 3 s) := by
+theorem fin3_nil : Fin3 [] [] := fin3_run [] [] (by decide) (P3_of_I3 [] I3_nil)
+
+theorem look_nil : ∀ c ∈ ([] : Str), c ≠ '(' ∧ isWs c = false := by intro c hc; cases hc
+
+theorem P3_seq_aux (s : Sq) : s.valid → P3 (tx 2 s) (tx 3 s) ∧
+    (s.head.isCh = true → ∀ w : Str, (∀ c ∈ w, c ≠ '(' ∧ isWs c = false) → P3 (w ++ tx 2 s) (w ++ tx 3 s)) := by
   induction s with
   | one u =>
     intro hv
     cases u with
     | ch it r =>
-      have hnp := explChain_noparen r it hv.1 hv.2
-      have : I3 (explChain it r) := fun fuel => pass3_noparen _ fuel (fun c hc => (hnp c hc).1)
-      simpa [tx, ux] using P3_of_I3 _ this
+      have hw := fun w hw => P3_explChain_gen_w [] [] fin3_nil r it hv.1 hv.2 w hw
+      refine ⟨by simpa [tx, ux] using hw [] look_nil, fun _ w hw' => ?_⟩
+      simpa [tx, ux] using hw w hw'
     | gr it r dg =>
       obtain ⟨hok, hr, hd⟩ := hv
       have := P3_lparen _ _ (P3_of_I3 _ (I3_unit_tail r it hok hr dg hd))
-      simpa [tx, ux] using this
+      exact ⟨by simpa [tx, ux] using this, fun h => by simp [Sq.head, U.isCh] at h⟩
   | cons u k s ih =>
     intro hv
-    obtain ⟨hu, hvs, h1, h2⟩ := hv
-    have hs := ih hvs
+    obtain ⟨hu, hvs, h1⟩ := hv
+    obtain ⟨hs, hsw⟩ := ih hvs
     cases u with
     | ch it r =>
       have hg : s.head.isCh = false := h1 rfl
@@ -381,10 +442,14 @@ theorem P3_seq (s : Sq) : s.valid → P3 (tx 2 s) (tx 3 s) := by
       obtain ⟨Y3, e3⟩ := tx_head_gr 3 s hg
       rw [e2, e3] at hs
       have hY := P3_lparen_tail _ _ hs
-      have := P3_explChain (List.replicate k ' ') Y2 Y3 (blanks_ws k) hY r it hu.1 hu.2
-      simpa [tx, ux, sepx, hg, e2, e3, List.append_assoc] using this
+      have hfin : Fin3 (List.replicate k ' ' ++ '(' :: Y2) (symAdd ++ '(' :: Y3) :=
+        fun w0 l hw hl => P3_before (List.replicate k ' ') Y2 Y3 (blanks_ws k) hY l hl w0 hw
+      have hw := fun w hw => P3_explChain_gen_w _ _ hfin r it hu.1 hu.2 w hw
+      refine ⟨by simpa [tx, ux, sepx, hg, e2, e3, List.append_assoc] using hw [] look_nil, fun _ w hw' => ?_⟩
+      simpa [tx, ux, sepx, hg, e2, e3, List.append_assoc] using hw w hw'
     | gr it r dg =>
       obtain ⟨hok, hr, hd⟩ := hu
+      refine ⟨?_, fun h => by simp [Sq.head, U.isCh] at h⟩
       by_cases hg : s.head.isCh = false
       · obtain ⟨Y2, e2⟩ := tx_head_gr 2 s hg
         obtain ⟨Y3, e3⟩ := tx_head_gr 3 s hg
@@ -393,23 +458,37 @@ theorem P3_seq (s : Sq) : s.valid → P3 (tx 2 s) (tx 3 s) := by
         have := P3_lparen _ _ (P3_explChain_gen _ _ (fin3_close_paren dg (List.replicate k ' ') Y2 Y3 hd (blanks_ws k) hY) r it hok hr)
         simpa [tx, ux, sepx, hg, e2, e3, List.append_assoc] using this
       · have hc : s.head.isCh = true := by simpa using hg
-        have hk : 1 ≤ k := h2 rfl hc
-        obtain ⟨k', rfl⟩ : ∃ k', k = k' + 1 := ⟨k - 1, by omega⟩
-        have hhead := tx_head_ch s hvs hc
-        have hb := P3_blanks (k' + 1) _ _ hs hhead
-        have hl3 : look3 (List.replicate (k' + 1) ' ' ++ tx 2 s) = true := by
-          rw [List.replicate_succ, List.cons_append]
-          exact look3_blank _ _ (blanks_eq k') hhead
         have hlook : ∀ c ∈ ')' :: dg, c ≠ '(' ∧ isWs c = false := by
           intro c hc
           rcases List.mem_cons.mp hc with rfl | h
           · decide
           · exact dig_look dg hd c h
-        have hrest := P3_run (')' :: dg) _ _ hlook hl3 hb
-        have hl3' := look3_run (')' :: dg) _ hlook hl3
-        have := P3_lparen _ _ (P3_explChain_gen _ _ (fin3_run _ _ hl3' hrest) r it hok hr)
-        simpa [tx, ux, sepx, hc, List.append_assoc] using this
+        cases k with
+        | zero =>
+          have hfin : Fin3 (')' :: (dg ++ tx 2 s)) (')' :: (dg ++ tx 3 s)) := by
+            intro w0 l hw hl
+            have := hsw hc (w0 ++ l :: ')' :: dg) (by
+              intro c hc'
+              rcases List.mem_append.mp hc' with h | h
+              · exact hw c h
+              · rcases List.mem_cons.mp h with rfl | h
+                · exact notSpec3_look _ hl
+                · exact hlook c h)
+            simpa [List.append_assoc] using this
+          have := P3_lparen _ _ (P3_explChain_gen _ _ hfin r it hok hr)
+          simpa [tx, ux, sepx, hc, List.append_assoc] using this
+        | succ k' =>
+          have hhead := tx_head_ch s hvs hc
+          have hb := P3_blanks (k' + 1) _ _ hs hhead
+          have hl3 : look3 (List.replicate (k' + 1) ' ' ++ tx 2 s) = true := by
+            rw [List.replicate_succ, List.cons_append]
+            exact look3_blank _ _ (blanks_eq k') hhead
+          have hrest := P3_run (')' :: dg) _ _ hlook hl3 hb
+          have hl3' := look3_run (')' :: dg) _ hlook hl3
+          have := P3_lparen _ _ (P3_explChain_gen _ _ (fin3_run _ _ hl3' hrest) r it hok hr)
+          simpa [tx, ux, sepx, hc, List.append_assoc] using this
 
+theorem P3_seq (s : Sq) (hv : s.valid) : P3 (tx 2 s) (tx 3 s) := (P3_seq_aux s hv).1
 
 /-! ### pass 4 -/
 
@@ -476,21 +555,26 @@ theorem P4_close_plus (dg Y tY : Str) (hd : AllDig dg) (h : P4 Y tY) :
     · subst hdn; simp [mulTxt]; rfl
     · simp [mulTxt, isEmpty_false_of_ne hdn, symMul, List.append_assoc]; rfl
 
-/-- `)n   X…` with `X` starting with an ordinary character: ` * n + ` and `X…` as pass 4 leaves it -/
+/-- `)n␣*X…` with `X` starting with an ordinary character that is not a digit: ` * n + ` and `X…`
+    as pass 4 leaves it -/
 theorem P4_close_gen (dg X tX : Str) (k : Nat) (hd : AllDig dg) (h : P4 X tX)
-    (hX : ∃ a t, X = a :: t ∧ notSpec4 a = true) :
-    P4 (')' :: (dg ++ (List.replicate (k + 1) ' ' ++ X))) (')' :: (mulTxt dg ++ (symAdd ++ tX))) := by
-  obtain ⟨a, t, rfl, ha⟩ := hX
+    (hX : ∃ a t, X = a :: t ∧ notSpec4 a = true ∧ isDig a = false) :
+    P4 (')' :: (dg ++ (List.replicate k ' ' ++ X))) (')' :: (mulTxt dg ++ (symAdd ++ tX))) := by
+  obtain ⟨a, t, rfl, ha, had⟩ := hX
   have haw : isWs a = false := by
     simp only [notSpec4, Bool.not_eq_true', Bool.or_eq_false_iff] at ha; exact ha.2
   intro fuel hf
   cases fuel with
   | zero => simp at hf
   | succ n =>
-    have hsp := span_dig_append dg (List.replicate (k + 1) ' ' ++ a :: t) hd (by
-      intro c r e; rw [List.replicate_succ, List.cons_append] at e
-      simp only [List.cons.injEq] at e; rw [← e.1]; decide)
-    have hw : (List.replicate (k + 1) ' ' ++ a :: t).span isWs = (List.replicate (k + 1) ' ', a :: t) := by
+    have hsp := span_dig_append dg (List.replicate k ' ' ++ a :: t) hd (by
+      intro c r e
+      cases k with
+      | zero => simp only [List.replicate_zero, List.nil_append, List.cons.injEq] at e; rw [← e.1]; exact had
+      | succ k' =>
+        rw [List.replicate_succ, List.cons_append] at e
+        simp only [List.cons.injEq] at e; rw [← e.1]; decide)
+    have hw : (List.replicate k ' ' ++ a :: t).span isWs = (List.replicate k ' ', a :: t) := by
       rw [List.span_eq_takeWhile_dropWhile, List.takeWhile_append_of_pos (blanks_ws _),
         List.dropWhile_append_of_pos (blanks_ws _)]
       simp [List.takeWhile_cons, List.dropWhile_cons, haw]
@@ -514,7 +598,6 @@ theorem P4_close_gen (dg X tX : Str) (k : Nat) (hd : AllDig dg) (h : P4 X tX)
         Bool.false_eq_true, if_false]
       simp [List.append_assoc, hrest]
 
-
 theorem notSpec4_word (c : Char) (h : WordCode c.toNat) : notSpec4 c = true := by
   have hp := word_plain c h
   have h1 : c ≠ '+' := by
@@ -522,15 +605,20 @@ theorem notSpec4_word (c : Char) (h : WordCode c.toNat) : notSpec4 c = true := b
     rcases h with h | h | h <;> omega
   simp [notSpec4, hp.2, h1, hp.1.2.1, hp.1.2.2.2]
 
-theorem sp_head4 (it : Item) (hok : it.OK) : ∃ a t, it.sp = a :: t ∧ notSpec4 a = true := by
+theorem up_not_dig (u : Char) (hu : isUp u = true) : isDig u = false := by
+  have hr := up_range u hu
+  simp only [isDig, Bool.and_eq_false_iff, decide_eq_false_iff_not]
+  right; intro h; have : u.toNat ≤ 57 := h; omega
+
+theorem sp_head4 (it : Item) (hok : it.OK) : ∃ a t, it.sp = a :: t ∧ notSpec4 a = true ∧ isDig a = false := by
   obtain ⟨⟨sym, br, hsp, _, hsym⟩, _⟩ := hok
   rcases hsym with ⟨u, hu, rfl⟩ | ⟨u, l, hu, _, rfl⟩ | ⟨x, _, rfl⟩
-  · exact ⟨u, br, by simpa using hsp, notSpec4_word u (Or.inl (up_range u hu))⟩
-  · exact ⟨u, l :: br, by simpa using hsp, notSpec4_word u (Or.inl (up_range u hu))⟩
-  · exact ⟨'[', x :: ']' :: br, by simpa using hsp, by decide⟩
+  · exact ⟨u, br, by simpa using hsp, notSpec4_word u (Or.inl (up_range u hu)), up_not_dig u hu⟩
+  · exact ⟨u, l :: br, by simpa using hsp, notSpec4_word u (Or.inl (up_range u hu)), up_not_dig u hu⟩
+  · exact ⟨'[', x :: ']' :: br, by simpa using hsp, by decide, by decide⟩
 
 theorem explChain_head4 (r : Rest) (it : Item) (hok : it.OK) (rest : Str) :
-    ∃ a t, explChain it r ++ rest = a :: t ∧ notSpec4 a = true := by
+    ∃ a t, explChain it r ++ rest = a :: t ∧ notSpec4 a = true ∧ isDig a = false := by
   obtain ⟨a, t, e, ha⟩ := sp_head4 it hok
   cases r with
   | nil => exact ⟨a, _, by simp [explChain, Item.expl, e]; rfl, ha⟩
@@ -539,7 +627,7 @@ theorem explChain_head4 (r : Rest) (it : Item) (hok : it.OK) (rest : Str) :
     exact ⟨a, _, by simp [explChain, Item.expl, e]; rfl, ha⟩
 
 theorem tx_head_ch4 (s : Sq) (hv : s.valid) (h : s.head.isCh = true) :
-    ∃ a t, tx 3 s = a :: t ∧ notSpec4 a = true := by
+    ∃ a t, tx 3 s = a :: t ∧ notSpec4 a = true ∧ isDig a = false := by
   cases s with
   | one u => cases u with
     | ch it r =>
@@ -567,7 +655,7 @@ theorem P4_seq (s : Sq) : s.valid → P4 (tx 3 s) (tx 4 s) := by
       simpa [tx, ux] using this
   | cons u k s ih =>
     intro hv
-    obtain ⟨hu, hvs, h1, h2⟩ := hv
+    obtain ⟨hu, hvs, h1⟩ := hv
     have hs := ih hvs
     cases u with
     | ch it r =>
@@ -583,10 +671,8 @@ theorem P4_seq (s : Sq) : s.valid → P4 (tx 3 s) (tx 4 s) := by
       · have := P4_copy '(' _ _ (by decide) (P4_run _ _ _ (fun c hc => (hnp c hc).2) (P4_close_plus dg _ _ hd hs))
         simpa [tx, ux, sepx, hg, List.append_assoc] using this
       · have hc : s.head.isCh = true := by simpa using hg
-        have hk : 1 ≤ k := h2 rfl hc
-        obtain ⟨k', rfl⟩ : ∃ k', k = k' + 1 := ⟨k - 1, by omega⟩
         have := P4_copy '(' _ _ (by decide) (P4_run _ _ _ (fun c hc => (hnp c hc).2)
-          (P4_close_gen dg _ _ k' hd hs (tx_head_ch4 s hvs hc)))
+          (P4_close_gen dg _ _ k hd hs (tx_head_ch4 s hvs hc)))
         simpa [tx, ux, sepx, hc, List.append_assoc] using this
 
 /-- `preprocess` on a sequence of units -/
@@ -609,13 +695,12 @@ def F.headGr : F → Bool
   | f => f.isGr
 
 /-- a sequence `u₁ ␣* u₂ ␣* … uₙ` (right-nested juxtapositions) of units, each a parenthesis-free
-    formula or a parenthesised parenthesis-free group without or with a count; two
-    parenthesis-free units are never adjacent (together they are one such unit), and a
-    parenthesis-free unit after a group is separated from it by at least one blank -/
+    formula or a parenthesised parenthesis-free group without or with a count, with any number
+    of blanks (also none) between them; two parenthesis-free units are never adjacent (together
+    they are one such unit) -/
 def F.units : F → Prop
   | .seq k a b => (a.flat ∧ b.flat) ∨
-      ((a.flat ∨ a.group1) ∧ b.units ∧ (a.isGr = false → b.headGr = true) ∧
-        (a.isGr = true → b.headGr = false → 1 ≤ k))
+      ((a.flat ∨ a.group1) ∧ b.units ∧ (a.isGr = false → b.headGr = true))
   | f => f.flat ∨ f.group1
 
 theorem flat_not_gr (f : F) (h : f.flat) : f.isGr = false := by
@@ -666,21 +751,17 @@ theorem seq_spec (f : F) : f.units → f.spAll SpeciesShape →
   | plus a b _ _ => intro h hs; exact one_spec _ h rfl hs
   | seq k a b _ ihb =>
     intro h hs
-    rcases h with ⟨ha, hb⟩ | ⟨ha, hb, c1, c2⟩
+    rcases h with ⟨ha, hb⟩ | ⟨ha, hb, c1⟩
     · obtain ⟨u, h1, h2, h3, h4⟩ := unit_spec (.seq k a b) (Or.inl ⟨ha, hb⟩) hs
       refine ⟨.one u, h1, h2, h3, ?_⟩
       simp only [Sq.head, F.headGr, h4, flat_not_gr a ha]
       rfl
     · obtain ⟨u, u1, u2, u3, u4⟩ := unit_spec a ha hs.1
       obtain ⟨sb, s1, s2, s3, s4⟩ := ihb hb hs.2
-      refine ⟨.cons u k sb, ⟨u1, s1, ?_, ?_⟩, ?_, ?_, ?_⟩
+      refine ⟨.cons u k sb, ⟨u1, s1, ?_⟩, ?_, ?_, ?_⟩
       · intro hu
         rw [u4] at hu
         rw [s4, c1 (by simpa using hu)]; rfl
-      · intro hu hsb
-        rw [u4] at hu
-        rw [s4] at hsb
-        exact c2 (by simpa using hu) (by simpa using hsb)
       · simp [tx, sepx, u2, s2, render]
       · simp [tx, sepx, u3, s3, renderExplicit]
       · simp [Sq.head, F.headGr, u4]
